@@ -33,6 +33,13 @@ func (w *World) deletedRec(x blob.Ref, visiting map[blob.Ref]bool) bool {
 // classify a known defect).  The result lists distinct non-empty values in order of
 // first appearance.
 func (w *World) Values(pn blob.Ref, attr string, at time.Time, signer int, honorDeletes bool) []string {
+	return Canon(w.ValuesList(pn, attr, at, signer, honorDeletes))
+}
+
+// ValuesList is Values without the canonicalisation: the value list exactly as the fold produces
+// it (an add-attribute of a value that is already present appends it again; del-attribute of a
+// value removes every occurrence).  Used where the NUMBER of values is judged (numValue).
+func (w *World) ValuesList(pn blob.Ref, attr string, at time.Time, signer int, honorDeletes bool) []string {
 	var cs []ClaimInfo
 	for _, c := range w.Claims {
 		if c.Kind == "delete" || c.PN != pn || c.Attr != attr {
@@ -71,7 +78,7 @@ func (w *World) Values(pn blob.Ref, attr string, at time.Time, signer int, honor
 			}
 		}
 	}
-	return Canon(v)
+	return v
 }
 
 // Canon removes empty strings and duplicates, keeping first occurrences.
